@@ -2,6 +2,7 @@ use super::{
     constants::{NANOS_PER_DAY, NANOS_PER_SEC},
     time::convert::{days_nanos_to_nanos, nanos_to_days_nanos},
 };
+use crate::errors::AstrolabeError;
 
 /// Adds a given offset to nanoseconds
 pub(crate) fn add_offset_to_nanos(nanoseconds: u64, offset: i32) -> u64 {
@@ -27,7 +28,17 @@ pub(crate) fn add_offset_to_dn(days: i32, nanoseconds: u64, offset: i32) -> (i32
 
 /// Removes a given offset from days and nanoseconds
 pub(crate) fn remove_offset_from_dn(days: i32, nanoseconds: u64, offset: i32) -> (i32, u64) {
+    try_remove_offset_from_dn(days, nanoseconds, offset).unwrap()
+}
+
+/// Removes a given offset from days and nanoseconds.
+/// Returns an error if the result is out of range.
+pub(crate) fn try_remove_offset_from_dn(
+    days: i32,
+    nanoseconds: u64,
+    offset: i32,
+) -> Result<(i32, u64), AstrolabeError> {
     let mut nanos = days_nanos_to_nanos(days, nanoseconds);
     nanos -= offset as i128 * NANOS_PER_SEC as i128;
-    nanos_to_days_nanos(nanos).unwrap()
+    nanos_to_days_nanos(nanos)
 }
